@@ -66,6 +66,7 @@ def run(db, cx):
     # ------------------------------------------------------- 2. per-surface guard
     fs = db.get(D + "CalcSafetyDistance::operator()")
     cx.floor("CalcSafetyDistance instantiations", len(fs), 10)
+    ret_audit = {}
     for f in fs:
         tag = f.inst.split("<")[-1][:40]
         brs = f.branch_blocks(lambda c, _b: any(x.endswith("::simple_safety") for x in c.get("calls", [])))
@@ -97,6 +98,30 @@ def run(db, cx):
         cx.ob("C11.2-surface-guard", "CalcSafetyDistance<%s> returns 0 unless simple_safety()" % tag,
               ok, d, short(f.loc),
               why="computing a 'safety' for a non-admissible surface over-estimates it")
+        # every value the functor can return is conservative by construction: literal 0, or the
+        # nearest intersection along the normal ray (the only computed value)
+        for (b, i, ev) in f.events("return"):
+            lit0 = ev.get("lit") in ("0", "0.0")
+            nearest = any(x.endswith("::min_element") or x.endswith("::min") for x in ev.get("calls", []))
+            if nearest:
+                # the minimum is taken over the result of calc_intersections
+                src = False
+                for v in local_refs(ev.get("refs", [])):
+                    for (_b, _i, dd) in f.reaching_defs(v, (b, i)):
+                        if any(x.endswith("::calc_intersections") for x in dd.get("calls", [])):
+                            src = True
+                nearest = src
+            key = " ".join((ev.get("t") or "").split())
+            r = ret_audit.setdefault(key, {"ok": True, "n": 0, "loc": short(ev["loc"]), "tags": []})
+            r["ok"] = r["ok"] and (lit0 or nearest)
+            r["n"] += 1
+            r["tags"].append(tag)
+    for key, r in sorted(ret_audit.items()):
+        cx.ob("C11.2-safety-returns", "CalcSafetyDistance returns `%s`: 0 or the nearest intersection "
+              "along the normal" % key, r["ok"], "%d return statements in %d instantiations" % (
+                  r["n"], len(set(r["tags"]))), r["loc"],
+              why="any other value (a constant such as infinity for the degenerate case) is not "
+                  "bounded by the distance to the surface")
 
     # ---------------------------------------------------- 3. volume flag = AND over faces
     for f in db.get(D + "UnitInserter::insert_volume"):
